@@ -28,7 +28,7 @@ Qed.
 (* ------------------------------------------------------------------ Part 2: ui16 lanes *)
 
 Ltac runZ :=
-  cbv -[radd rmul rsub ropp r0 r1 rdiv rltb toZ ofZ rundef
+  cbv -[radd rmul rsub ropp r0 r1 rdiv rltb toZ ofZ rundef ZOps
         norm_lane adds_epu16_lane mulhi_epu16_lane srli_epi16_lane];
   cbv [radd rmul rsub ropp r0 r1 rdiv rltb toZ ofZ rundef ZOps].
 
@@ -36,25 +36,26 @@ Lemma norm_small : forall x, 0 <= x < 65536 -> norm_lane 16 x = x.
 Proof. intros. unfold norm_lane. apply Z.mod_small. change (2^16) with 65536. lia. Qed.
 
 (* complete sweep of the 65536 lane values *)
-Fixpoint all_below (n : nat) (p : Z -> bool) : bool :=
-  match n with O => true | S k => p (Z.of_nat k) && all_below k p end.
+Fixpoint all_from (n : nat) (x : Z) (p : Z -> bool) : bool :=
+  match n with O => true | S k => p x && all_from k (x + 1) p end.
 
-Lemma all_below_spec : forall n p, all_below n p = true -> forall x, 0 <= x < Z.of_nat n -> p x = true.
+Lemma all_from_spec : forall n x0 p, all_from n x0 p = true -> forall x, x0 <= x < x0 + Z.of_nat n -> p x = true.
 Proof.
-  induction n; simpl; intros p H x Hx; [lia|].
+  induction n; simpl; intros x0 p H x Hx; [lia|].
   apply andb_true_iff in H. destruct H as [H1 H2].
-  destruct (Z.eq_dec x (Z.of_nat n)); [subst; exact H1|]. apply IHn; [exact H2|lia].
+  destruct (Z.eq_dec x x0); [subst; exact H1|]. apply (IHn (x0 + 1)); [exact H2|lia].
 Qed.
 
-Definition div3_frag_lane (x : Z) : Z := srli_epi16_lane 1 (mulhi_epu16_lane (norm_lane 16 x) 43691).
+Definition div3_frag_lane (x : Z) : Z :=
+  srli_epi16_lane 1 (norm_lane 16 (mulhi_epu16_lane (norm_lane 16 x) 43691)).
 
-Lemma div3_sweep : all_below (Z.to_nat 65536) (fun x => div3_frag_lane x =? x / 3) = true.
+Lemma div3_sweep : all_from (Z.to_nat 65536) 0 (fun x => div3_frag_lane x =? x / 3) = true.
 Proof. vm_compute. reflexivity. Qed.
 
 Lemma div3_lane : forall x, 0 <= x < 65536 -> div3_frag_lane x = x / 3.
 Proof.
   intros x Hx. apply Z.eqb_eq.
-  apply (all_below_spec _ _ div3_sweep). rewrite Z2Nat.id; lia.
+  apply (all_from_spec _ _ _ div3_sweep). rewrite Z2Nat.id; lia.
 Qed.
 
 Ltac lane_hyps :=
@@ -106,8 +107,8 @@ Lemma partialZ_mm256_add_epi16 :
              agree Z (exec_frag Z ZOps (ifrag instr_mm256_add_epi16) st)
                      (exec_body Z ZOps (ibody instr_mm256_add_epi16) st).
 Proof.
-  intros st Hpre Hno. revert Hno. prep instr_mm256_add_epi16.
-  intro Hno. specialize (Hno _ _ eq_refl eq_refl).
+  unfold no_overflow16. prep instr_mm256_add_epi16.
+  match goal with H : forall xs ys, _ -> _ -> Forall2 _ xs ys |- _ => specialize (H _ _ eq_refl eq_refl) end.
   repeat match goal with H : Forall2 _ (_ :: _) (_ :: _) |- _ => inversion H; clear H; subst end.
   lane_hyps. runZ.
   state_eqZ ltac:(apply adds_no_overflow; assumption).
@@ -127,7 +128,7 @@ Ltac pre_tac :=
          | simpl; repeat (split; try reflexivity) ].
 
 Ltac refute W :=
-  exists W; split; [ pre_tac | vm_compute; intro H; first [exact H | discriminate H] ].
+  exists W; split; [ pre_tac | vm_compute; let H := fresh "H" in intro H; first [exact H | discriminate H] ].
 
 (* KNOWN (DESIGN.md section 6): the mask _mm256_set1_epi8((1<<N)-1) has the sign bit of every 32-bit lane
    clear for N < 8, so _mm256_maskstore_ps stores nothing; the body stores the first N lanes *)
